@@ -1474,7 +1474,18 @@ def _expr_has_name(node: ast.AST) -> bool:
     """Return True if the expression tree references any identifiers."""
 
     if isinstance(node, ast.Name):
-        return node.id not in _SAFE_NAME_REFERENCES
+        return True
+    if (
+        isinstance(node, ast.Call)
+        and isinstance(node.func, ast.Name)
+        and node.func.id in _SAFE_NAME_REFERENCES
+    ):
+        # ``len(...)``, ``abs(...)`` ... are the built-ins; the same word used as a
+        # plain name is a sketch variable like any other
+        return any(
+            _expr_has_name(child)
+            for child in list(node.args) + [kw.value for kw in node.keywords]
+        )
     return any(_expr_has_name(child) for child in ast.iter_child_nodes(node))
 
 
